@@ -34,15 +34,21 @@ KindOfDef == [o \in OptionsDef |->
 CommandsDef == {"init", "add-key", "list-snapshots", "ls", "list-files", "lf", "snapshot", "restore", "delete", "clean", "benchmark",
                 "upload-objects", "download-objects", "list-objects", "delete-objects"}
 
+\* options whose built-in default can also be written down explicitly in a source.  `same` names the source (if any) that spells out
+\* exactly the built-in default: a value is "given" by being present in a source, not by differing from the default.
+HasDefault == {"concurrent", "hide-progress", "log-level", "s3c.scheme", "pc.port", "pc.secure"}
+CanSpell(o, src) == o \in HasDefault /\ ~(o = "hide-progress" /\ src = "cli")      \* -q is a flag: the command line cannot say "false"
+
 CONSTANTS Options, KindOf, Commands
 VARIABLES case
-Init == case \in [o : Options, present : SUBSET {"cli", "env", "profile", "default"}, cmd : Commands]
+Init == case \in [o : Options, present : SUBSET {"cli", "env", "profile", "default"}, cmd : Commands, same : {"none", "cli", "env", "profile", "default"}]
 Next == UNCHANGED case
 Spec == Init /\ [][Next]_case
-Legal == case.present \subseteq Avail(KindOf[case.o])
+Legal == /\ case.present \subseteq Avail(KindOf[case.o])
+         /\ (case.same = "none" \/ (case.same \in case.present /\ CanSpell(case.o, case.same)))
 \* sanity of the definition: the winner is set (or builtin), and nothing of higher rank is set
 EffectiveSound == Legal => LET w == Effective(case.present) IN
                     /\ (w \in case.present \/ w = "builtin")
                     /\ \A s \in case.present : Rank(w) <= Rank(s)
-Emit == Legal => PrintT(<<"O", case.o, case.present, case.cmd, Effective(case.present)>>)
+Emit == Legal => PrintT(<<"O", case.o, case.present, case.cmd, Effective(case.present), case.same>>)
 =============================================================================
